@@ -40,6 +40,14 @@ def model_spec(draw, max_layers=3, allow_conv=True, max_dim=7, min_layers=1, ext
             ph = draw(st.integers(0 if kh <= h else (kh - h + 1) // 2, 2))
             pw = draw(st.integers(0 if kw <= w else (kw - w + 1) // 2, 2))
             sh, sw = draw(st.integers(1, 3)), draw(st.integers(1, 3))
+            # common special geometries are drawn on purpose (a uniform draw almost never hits them)
+            mode = draw(st.sampled_from(['free', 'free', 'free', 'pointwise', 'same']))
+            if mode == 'pointwise':
+                kh = kw = sh = sw = 1
+                ph = pw = 0
+            elif mode == 'same' and c * 9 <= max_dim:
+                kh = kw = 3
+                sh = sw = ph = pw = 1
             cout = draw(st.integers(1, min(4, max_out)))
             layers.append({'t': 'conv', 'cin': c, 'cout': cout, 'k': [kh, kw], 's': [sh, sw], 'p': [ph, pw],
                            'bias': draw(st.booleans()), 'sub': draw(st.sampled_from([False, False, False, True]))})
